@@ -21,38 +21,88 @@ func ruleFramePairing(c *Ctx, u *Universe, rule string, only string) int {
 	R := c.R
 	n := 0
 	isPop := func(x ssa.Instruction) bool { return isCallTo(u, x, "pkg/runtime.VM.PopCallFrame") }
+	usedAsValue := map[*ssa.Function]bool{}
+	for _, g := range u.srcFuncs("pkg/exec") {
+		for _, in := range instrsOf(g) {
+			for _, op := range in.Operands(nil) {
+				if f, isF := (*op).(*ssa.Function); isF {
+					if call, isCall := in.(ssa.CallInstruction); !isCall || call.Common().Value != ssa.Value(f) {
+						usedAsValue[f] = true
+					}
+				}
+			}
+		}
+	}
+	type site struct {
+		f    *ssa.Function
+		in   ssa.CallInstruction
+		via  string
+		hops int
+	}
+	var work []site
 	for _, f := range u.srcFuncs("pkg/exec") {
 		if only != "" && u.fname(f) != only {
 			continue
 		}
 		for _, push := range u.callsNamed(f, "pkg/runtime.VM.PushCallFrame") {
-			n++
-			key := u.fname(f) + ":" + siteName(u, f, push)
-			bad := ""
-			for _, rr := range returnsReachable(push.Block(), instrIndex(push)+1, isPop) {
-				ev := errorOperand(rr.Ret)
-				switch {
-				case ev == nil:
-					bad = "a return without error result leaves the frame pushed (" + u.pos(rr.Ret.Pos()) + ")"
-				case isNilConst(ev) || rr.IsNil[ev]:
-					bad = "a successful return (nil error) leaves the frame pushed (" + u.pos(rr.Ret.Pos()) + ")"
-				case rr.NonNil[ev] || provablyNonNilError(ev):
-					// error exit: frame intentionally kept
-				default:
-					// some error is known non-nil on this path and an error value is returned: error exit
-					onErrPath := false
-					for v := range rr.NonNil {
-						if isErrorType(v.Type()) {
-							onErrPath = true
-						}
-					}
-					if !onErrPath {
-						bad = "a return that may carry a nil error leaves the frame pushed (" + u.pos(rr.Ret.Pos()) + ")"
+			work = append(work, site{f, push, "", 0})
+		}
+	}
+	queued := map[ssa.Instruction]bool{}
+	for len(work) > 0 {
+		st := work[0]
+		work = work[1:]
+		f, push := st.f, st.in
+		n++
+		key := u.fname(f) + ":" + siteName(u, f, push) + st.via
+		bad, leakOnSuccess := "", false
+		for _, rr := range returnsReachable(push.Block(), instrIndex(push)+1, isPop) {
+			ev := errorOperand(rr.Ret)
+			switch {
+			case ev == nil:
+				bad = "a return without error result leaves the frame pushed (" + u.pos(rr.Ret.Pos()) + ")"
+				leakOnSuccess = true
+			case isNilConst(ev) || rr.IsNil[ev]:
+				bad = "a successful return (nil error) leaves the frame pushed (" + u.pos(rr.Ret.Pos()) + ")"
+				leakOnSuccess = true
+			case rr.NonNil[ev] || provablyNonNilError(ev):
+				// error exit: frame intentionally kept
+			default:
+				// some error is known non-nil on this path and an error value is returned: error exit
+				onErrPath := false
+				for v := range rr.NonNil {
+					if isErrorType(v.Type()) {
+						onErrPath = true
 					}
 				}
+				if !onErrPath {
+					bad = "a return that may carry a nil error leaves the frame pushed (" + u.pos(rr.Ret.Pos()) + ")"
+					leakOnSuccess = true
+				}
 			}
-			R.check(bad == "", rule, key, u.pos(push.Pos()), "the frame is popped on every exit that does not return an error", "call frame leak: "+bad)
 		}
+		// a helper that pushes on behalf of its callers (plain calls only, never a value): the obligation moves to
+		// every call site of the helper
+		if leakOnSuccess && f.Parent() == nil && !usedAsValue[f] && st.hops < 2 && only == "" {
+			sites := u.staticCallers(f)
+			movable := len(sites) > 0
+			for _, cs := range sites {
+				if _, plain := cs.(*ssa.Call); !plain {
+					movable = false
+				}
+			}
+			if movable {
+				R.hold(rule, key, u.pos(push.Pos()), "pushes on behalf of its callers: the pop is required at each call site of "+u.fname(f))
+				for _, cs := range sites {
+					if !queued[cs] {
+						queued[cs] = true
+						work = append(work, site{cs.Parent(), cs, " (push inside " + shortName(u.fname(f)) + ")", st.hops + 1})
+					}
+				}
+				continue
+			}
+		}
+		R.check(bad == "", rule, key, u.pos(push.Pos()), "the frame is popped on every exit that does not return an error", "call frame leak: "+bad)
 	}
 	return n
 }
@@ -74,16 +124,30 @@ func checkC08(c *Ctx) {
 	R.count("push_sites", n)
 	// receiver / module of frames
 	if f := u.ssaFunc("pkg/exec", "execMethodFunction"); f != nil {
-		ok := false
-		for _, nf := range u.callsNamed(f, "pkg/runtime.NewFunctionCallFrame") {
-			if nf.Common().Args[1] == ssa.Value(f.Params[1]) {
-				ok = true
-			} else {
-				ok = false
-				break
+		// the frames built for a method call (here or in a helper the function calls) carry the call's root value
+		ok, nNF := true, 0
+		scope := []*ssa.Function{f}
+		for _, in := range instrsOf(f) {
+			if call, isCall := in.(*ssa.Call); isCall {
+				if callee := call.Call.StaticCallee(); callee != nil && callee.Pkg == f.Pkg && callee.Blocks != nil && callee != f {
+					scope = append(scope, callee)
+				}
 			}
 		}
-		R.check(ok, "C08.frames", "pkg/exec.execMethodFunction:receiver", u.pos(f.Pos()), "a method call's frame carries the receiving value as 其", "a method frame is built with a receiver other than the call's root value")
+		for _, g := range scope {
+			for _, nf := range u.callsNamed(g, "pkg/runtime.NewFunctionCallFrame") {
+				nNF++
+				match := false
+				for d := 0; d <= 2 && !match; d++ {
+					roots := paramRoots(u, nf.Common().Args[1], d)
+					match = len(roots) == 1 && roots[0] == f.Params[1]
+				}
+				if !match {
+					ok = false
+				}
+			}
+		}
+		R.check(ok && nNF >= 1, "C08.frames", "pkg/exec.execMethodFunction:receiver", u.pos(f.Pos()), "a method call's frame carries the receiving value as 其", "a method frame is built with a receiver other than the call's root value")
 	} else {
 		R.lost("C08.frames", "pkg/exec.execMethodFunction")
 	}
